@@ -106,7 +106,8 @@ def _is_num(s):
 
 
 TEXTS = [["TS_017", "TS_018", "x9"], ["017", "018b", "2a"], ["1", "2", "unassigned"], ["A", "B", "A"],
-         ["M\u00fcller/TS_1", "\u00c5", "\u6837\u54c1_3"]]          # non-ASCII text tokens (the file is written and read as text)
+         ["M\u00fcller/TS_1", "\u00c5", "\u6837\u54c1_3"],
+         ["5\"UTR", "it's", "a,b;c|d"]]          # quote characters and separators of other table formats inside text tokens          # non-ASCII text tokens (the file is written and read as text)
 INTS = [[1, 12, 105], [7, 7, 3]]
 FLOATS = [[0.5, -1.25, 100.125], [3.141593, 2.0, -0.000001]]
 SPECS = [["data_"], ["data_optics", "data_particles"], ["data_stopgap_motivelist"], ["data_optics", "data_particles", "data_extra"]]
